@@ -20,6 +20,8 @@ import (
 	"sync"
 	"testing/synctest"
 
+	"gitlab.com/yawning/obfs4.git/transports"
+
 	"verif/memwire"
 	"verif/mon"
 	"verif/o4"
@@ -363,4 +365,171 @@ func reflect(c *mon.Case, r *mon.Run, dir string, victim string, seed uint64) {
 	cw.Close()
 	sw.Close()
 	<-rd
+}
+
+// transplant: K connections of one client (arguments parsed once, as a
+// library user does; every Dial at the same instant) to one server factory.
+// When all are established, the frames one endpoint of connection 0 has put
+// on the wire are written — byte for byte, at the same position of the frame
+// stream — into the same direction of every other connection, whose own
+// endpoint has written nothing there.  "The bytes delivered are a prefix of
+// what the peer wrote" is a statement about each connection: nothing may be
+// delivered on the others, and their Reads must fail.  (What makes that so is
+// that no two connections share keys; the monitor does not look at keys.)
+func transplant(c *mon.Case, r *mon.Run, dir string, k int, fromServer bool, seed uint64) {
+	rng := mon.NewRand(seed)
+	b := o4.NewBridge(rng, 0)
+	sf, err := o4.ServerFactory(dir, b)
+	if err != nil {
+		c.Violation("setup/server-factory", err.Error(), nil)
+		return
+	}
+	t := transports.Get("obfs4")
+	cf, err := t.ClientFactory("")
+	if err != nil {
+		c.Violation("setup/client-factory", err.Error(), nil)
+		return
+	}
+	pa, err := cf.ParseArgs(b.ClientArgsCert())
+	if err != nil {
+		c.Violation("setup/parse-args", err.Error(), nil)
+		return
+	}
+	type end struct {
+		cw, sw   *memwire.Conn
+		cc, sc   net.Conn
+		cerr     error
+		serr     error
+		got      int64
+		rerr     error
+		sample   []byte
+		hsLenS2C int
+		hsLenC2S int
+	}
+	ends := make([]*end, k)
+	var hs sync.WaitGroup
+	start := make(chan struct{})
+	for i := range ends {
+		e := &end{}
+		ends[i] = e
+		e.cw, e.sw = memwire.Pair(memwire.Options{Keep: true})
+		hs.Add(2)
+		c.Go(hs.Done, func() { <-start; e.sc, e.serr = sf.WrapConn(e.sw) })
+		c.Go(hs.Done, func() {
+			<-start
+			e.cc, e.cerr = cf.Dial("tcp", "192.0.2.2:443", func(string, string) (net.Conn, error) { return e.cw, nil }, pa)
+		})
+	}
+	close(start)
+	hs.Wait()
+	synctest.Wait()
+	closeAll := func() {
+		for _, e := range ends {
+			e.cw.Close()
+			e.sw.Close()
+		}
+	}
+	for i, e := range ends {
+		if e.cerr != nil || e.serr != nil {
+			c.Violation("setup/handshake", fmt.Sprintf("transplant: connection %d of %d dialled at once: %v / %v", i, k, e.cerr, e.serr), nil)
+			closeAll()
+			return
+		}
+		_, _, d := e.sw.Out().Snapshot()
+		e.hsLenS2C = len(d)
+		_, _, d = e.cw.Out().Snapshot()
+		e.hsLenC2S = len(d)
+	}
+	// connection 0 carries a payload in the chosen direction
+	src := ends[0]
+	st := mon.Stream{Key: seed}
+	n := 200 + rng.IntN(6000)
+	wconn, half, hsLen := src.cc, src.cw.Out(), src.hsLenC2S
+	if fromServer {
+		wconn, half, hsLen = src.sc, src.sw.Out(), src.hsLenS2C
+	}
+	if _, err := wconn.Write(st.Bytes(0, n)); err != nil {
+		c.Violation("setup/write", err.Error(), nil)
+		closeAll()
+		return
+	}
+	synctest.Wait()
+	_, _, wire := half.Snapshot()
+	frames := append([]byte(nil), wire[hsLen:]...)
+	// readers on the victims, then the transplant
+	var mu sync.Mutex
+	var rd sync.WaitGroup
+	for _, e := range ends[1:] {
+		e := e
+		vconn := e.sc
+		if fromServer {
+			vconn = e.cc
+		}
+		rd.Add(1)
+		c.Go(rd.Done, func() {
+			buf := make([]byte, 4096)
+			for {
+				m, err := vconn.Read(buf)
+				mu.Lock()
+				if m > 0 && len(e.sample) < 32 {
+					e.sample = append(e.sample, buf[:min(m, 32-len(e.sample))]...)
+				}
+				e.got += int64(m)
+				e.rerr = err
+				mu.Unlock()
+				if err != nil {
+					return
+				}
+			}
+		})
+	}
+	for _, e := range ends[1:] {
+		raw := e.cw // written into the client->server direction behind the client's back
+		if fromServer {
+			raw = e.sw
+		}
+		raw.Write(frames)
+	}
+	synctest.Wait()
+	// (under another connection's keys the first frame's length field reads as
+	// anything up to 65535, and an endpoint may wait for that many bytes before
+	// it checks the tag: more bytes, so that it has to decide)
+	fill := make([]byte, 70000)
+	for i := range fill {
+		fill[i] = byte(rng.Uint32())
+	}
+	for _, e := range ends[1:] {
+		raw := e.cw
+		if fromServer {
+			raw = e.sw
+		}
+		fw := raw
+		c.Go(nil, func() { fw.Write(fill) })
+	}
+	synctest.Wait()
+	dirName := map[bool]string{true: "server-to-client", false: "client-to-server"}[fromServer]
+	r.Count("evaluations", 1)
+	r.Count("transplant_groups", 1)
+	ok := true
+	mu.Lock()
+	for i, e := range ends[1:] {
+		wit := map[string]any{"connections": k, "direction": dirName, "victim": i + 1, "frames_bytes": len(frames), "payload_bytes": n, "delivered": e.got, "read_err": fmt.Sprint(e.rerr), "seed": fmt.Sprintf("%x", seed)}
+		switch {
+		case e.got > 0:
+			ok = false
+			c.Violation("foreign-frames-delivered/"+dirName, fmt.Sprintf("connection %d of %d (one client, dialled at once): its peer wrote nothing, the %d bytes of frames that connection 0's endpoint had sent were written into it, and Read delivered %d bytes (%q…), error %v", i+1, k, len(frames), e.got, e.sample, e.rerr), wit)
+		case e.rerr == nil:
+			ok = false
+			c.Violation("foreign-frames-not-rejected/"+dirName, fmt.Sprintf("connection %d of %d: %d bytes of another connection's frames were written into it and Read has reported no error at quiescence", i+1, k, len(frames)), wit)
+		default:
+			r.Count("transplanted_frames_rejected", 1)
+		}
+	}
+	mu.Unlock()
+	if ok {
+		r.Count("transplant_groups_all_rejected", 1)
+	}
+	r.Distinct("nontrivial", fmt.Sprintf("transplant/%d/%v/%x", k, fromServer, seed))
+	closeAll()
+	rd.Wait()
 }
